@@ -125,6 +125,16 @@ def run(ctx):
             continue
         for (i, a, s, rlx) in r["bad"]:
             bad.append((off + i, a, s, rlx))
+    # law under seed (C01 / C02): consecutive stochastic sub-calls get pairwise distinct site keys
+    indep = []
+    if pid in ("C01", "C02"):
+        iout = os.path.join(ctx.scratch, "indep.json")
+        pr = subprocess.run([common.PY, os.path.join(common.HARNESS, "worker_indep.py"), iout, str(ctx.seed * 10 + (1 if pid == "C01" else 2)),
+                             str(10 if ctx.tier == "quick" else 100)], env=env, capture_output=True, text=True, cwd=ctx.scratch)
+        if pr.returncode != 0 or not os.path.exists(iout):
+            worker_errs.append(pr.stderr[-1500:])
+        else:
+            indep = json.load(open(iout))
     # coverage statistics
     seen, distinct_nt = set(), 0
     feat, kinds, errk, opsk = Counter(), Counter(), Counter(), Counter()
@@ -143,15 +153,22 @@ def run(ctx):
             seen.add(h)
             if nontrivial(c):
                 distinct_nt += 1
+    off = len(all_cases)
+    all_cases = all_cases + indep
+    bad = bad + [(off + i, False, False, False) for i, c in enumerate(indep) if not c.get("ok")]
+    distinct_nt += len({json.dumps([c["shapes"], c["between"], c["mode"]]) for c in indep if c.get("ok")})
     return {
         "cases": all_cases, "bad": bad, "worker_errs": worker_errs, "coq_errs": coq_errs,
         "coverage": {
             "evaluations": len(all_cases), "distinct_nontrivial": distinct_nt,
-            "rule": "random programs over {stub dist, @gen fn, Cond, Vmap, Scan} (depth<=2, <=4 sites per fn) with "
+            "rule": "law under seed (C01/C02 only): @gen programs of 2-4 consecutive stochastic sub-calls (Scan, nested fn, plain site; optionally a site that generate constrains "
+                    "in between) over a key-echo distribution, seeded simulate / generate (eager and jit): all site keys pairwise distinct.  "
+                    "random programs over {stub dist, @gen fn, Cond, Vmap, Scan} (depth<=2, <=4 sites per fn) with "
                     "random integer arguments/constraints/selections; each case is run on the implementation "
                     "(through the overlay) and on the Coq model (vm_compute) and judged against the spec semantics; "
                     "non-trivial = distinct (program,args,constraint,ops) with >=2 sites (and >=1 successful op / a non-None constraint)",
-            "histogram": {"kinds": kinds, "programs_containing": feat, "impl_errors": errk, "ops": opsk},
+            "histogram": {"kinds": kinds, "programs_containing": feat, "impl_errors": errk, "ops": opsk,
+                          "seeded_independence": {"cases": len(indep), "keys": sum(c.get("nkeys", 0) for c in indep)}},
             "samples": [{k: c[k] for k in c if k != "feat"} for c in all_cases[:2]],
         },
     }
@@ -169,6 +186,9 @@ def replay(ctx, payload):
     import subprocess
     import overlay
     case = payload.get("case", payload)
+    if case.get("kind") == "indep":
+        # the seeded-independence stream is regenerated from the run's seed: re-run the whole quick check
+        return run(ctx)
     corpus = os.path.join(ctx.scratch, "replay_corpus.json")
     json.dump([case], open(corpus, "w"))
     root = ctx.ensure_overlay()
